@@ -59,12 +59,14 @@ def validate_trace(rows, sc, tag, timeout=1200):
     return r.jsons("MM"), st
 
 
-def validate_parallel(rows, sc, nchunks):
+def validate_parallel(rows, sc, nchunks, tag=""):
+    if not rows:
+        return [], []
     n = max(1, (len(rows) + nchunks - 1) // nchunks)
     parts = [rows[i:i + n] for i in range(0, len(rows), n)]
     mm, st = [], []
     with cf.ThreadPoolExecutor(max_workers=len(parts)) as ex:
-        futs = [ex.submit(validate_trace, part, sc, "p%d" % i) for i, part in enumerate(parts)]
+        futs = [ex.submit(validate_trace, part, sc, "%s-p%d" % (tag, i)) for i, part in enumerate(parts)]
         off = 0
         for part, f in zip(parts, futs):
             m, s = f.result()
@@ -78,17 +80,48 @@ def validate_parallel(rows, sc, nchunks):
 
 def run_real(binp, cases, sc, tag, seed):
     cpath, tpath = os.path.join(sc, "cases-%s.ndjson" % tag), os.path.join(sc, "real-%s.ndjson" % tag)
-    lib.write_ndjson(cpath, [{"key": c["key"], "tasks": c["tasks"]} for c in cases])
+    lib.write_ndjson(cpath, [dict({"key": c["key"], "tasks": c["tasks"]}, **({"gate": c["gate"]} if c.get("gate") else {}))
+                             for c in cases])
     rep = lib.run_report([binp, "run", "-file", cpath, "-out", tpath, "-seed", str(seed)])
     rows = lib.read_ndjson(tpath)
-    if len(rows) != len(cases) or any(r["key"] != c["key"] for r, c in zip(rows, cases)):
+    complete = len(rows) == len(cases) or (rep["extra"]["aborted_after_deaths"] and len(rows) < len(cases))
+    if not complete or any(r["key"] != c["key"] for r, c in zip(rows, cases)):
         raise lib.Inconclusive("driver recorded %d of %d cases" % (len(rows), len(cases)))
     return rep, rows
 
 
+def gate_for(row):
+    """A completion order for re-running a mismatching case: the task whose result Wait returned ends
+    first (only the members of its own nested group must end before it), then the owner of the group
+    it reports to (after that group's other members), and so on up to the root group; then the others
+    in the recorded order.  Only a scheduling hint for the real run; the verdict stays with TLC."""
+    out, tasks, order = row["out"], row["tasks"], row["order"]
+    win = (out["is"] or out["mentions"] or ([out["t"]] if out["k"] == "err" else []))[:1]
+    n = len(tasks)
+    if not win or sorted(order) != list(range(1, n + 1)):
+        return order
+
+    def grp(i):
+        t = tasks[i - 1]
+        return 0 if t["p"] == 0 else (t["p"] if t["m"] == "inner" else grp(t["p"]))
+
+    def before(a):      # everything that has to end before a can: its nested group, recursively
+        res = []
+        for i in order:
+            if tasks[i - 1]["m"] != "log" and grp(i) == a:
+                res += [x for x in before(i) + [i] if x not in res]
+        return res
+    gate, x = [], win[0]
+    while x:
+        gate += [i for i in before(x) + [x] if i not in gate]
+        x = grp(x)
+    return gate + [i for i in order if i not in gate]
+
+
 def confirm(binp, cases, sc):
-    """Each mismatching configuration alone in a fresh process (up to CONFIRM_ROUNDS times, the winner
-    of a group is schedule dependent), judged again by TLC. Returns {index: re-recorded line}."""
+    """Each mismatching configuration alone in a fresh process, its tasks released in the completion
+    order the mismatching run recorded (`gate`; which task's result a group keeps is schedule
+    dependent), up to CONFIRM_ROUNDS times, judged again by TLC. Returns {index: re-recorded line}."""
     reproduced, todo = {}, list(range(len(cases)))
     for rnd in range(CONFIRM_ROUNDS):
         if not todo:
@@ -106,41 +139,68 @@ def confirm(binp, cases, sc):
     return reproduced
 
 
+def binding_selftest(rows, sc):
+    """DESIGN §9: a good recorded trace with one field corrupted must be rejected by the validator."""
+    failed = [r for r in rows if r["out"]["k"] in ("err", "other")][:3]
+    calm = [r for r in rows if r["out"]["k"] == "nil"][:2]
+    if not failed or not calm:
+        raise lib.Inconclusive("binding self-test: no suitable recorded lines")
+    bad = ([dict(r, out=dict(r["out"], k="nil", t=0, mentions=[], **{"is": []})) for r in failed]
+           + [dict(r, out=dict(r["out"], k="crash")) for r in calm])
+    mm, _ = validate_trace(bad, sc, "selftest")
+    rejected = {m["l"] for m in mm}
+    if len(rejected) != len(bad):
+        raise lib.Inconclusive("binding self-test: %d of %d corrupted lines were accepted" % (len(bad) - len(rejected), len(bad)))
+    return {"corrupted_lines": len(bad), "rejected": len(rejected)}
+
+
+def pipeline(binp, cfg, take, workers, nchunks, tier, sc, rnd):
+    """One constants file end to end: model-check, run its configurations on the real code, validate."""
+    r, cs = run_model(cfg, workers, tier == "thorough")
+    small = [c for c in cs if len(c["tasks"]) <= 2]
+    rest = [c for c in cs if len(c["tasks"]) > 2]
+    cases = small + (rest if take is None else lib.sample(rest, take, rnd))
+    rep, rows = run_real(binp, cases, sc, cfg, lib.seed())
+    mm, st = validate_parallel(rows, sc, nchunks, cfg)
+    return {"cfg": cfg, "r": r, "configs": cs, "cases": cases, "rep": rep, "rows": rows, "mm": mm, "st": st}
+
+
 def check(tier):
     t0 = time.time()
-    rnd = random.Random(lib.seed())
     binp = lib.build("c48")
     v = lib.Verdict(PID)
-    # (cfg, how many of its configurations are run on the real code: None = all)
-    models = ([("ErrGuard_quick.cfg", None), ("ErrGuard_kinds.cfg", None), ("ErrGuard_four.cfg", 1500)] if tier == "quick"
-              else [("ErrGuard_big.cfg", None), ("ErrGuard_kinds3.cfg", None)])
-    floor = 3500 if tier == "quick" else 100000
+    # (constants file, how many of its > 2-task configurations are run on the real code: None = all,
+    #  TLC workers, trace chunks)
+    if tier == "quick":
+        models = [("ErrGuard_quick.cfg", None, max(2, lib.NCPU - 4), 2), ("ErrGuard_kinds.cfg", None, 2, 1)]
+        floor = 2500
+    else:
+        h = max(2, lib.NCPU // 2)
+        models = [("ErrGuard_big.cfg", None, h, h), ("ErrGuard_kinds3.cfg", None, h, h)]
+        floor = 100000
     with lib.Scratch() as sc:
-        w = max(2, lib.NCPU // len(models))
         with cf.ThreadPoolExecutor(max_workers=len(models)) as ex:
-            res = list(ex.map(lambda m: run_model(m[0], w, tier == "thorough"), models))
-        cases, seen, per_model = [], set(), {}
-        for (cfg, k), (r, cs) in zip(models, res):
-            fresh = [c for c in cs if c["key"] not in seen]
-            small = [c for c in fresh if len(c["tasks"]) <= 2]
-            rest = [c for c in fresh if len(c["tasks"]) > 2]
-            chosen = small + (rest if k is None else lib.sample(rest, k, rnd))
-            for c in chosen:
-                seen.add(c["key"])
-            cases += chosen
-            per_model[cfg] = {"configurations": len(cs), "states": r.distinct, "generated": r.generated,
-                              "run_on_real_code": len(chosen), "tlc_wall_s": round(r.wall, 1)}
-        if len(cases) < floor:
-            raise lib.Inconclusive("too few configurations: %d (floor %d)" % (len(cases), floor))
-        rep, rows = run_real(binp, cases, sc, "main", lib.seed())
-        mm, st = validate_parallel(rows, sc, 3 if tier == "quick" else max(2, lib.NCPU - 2))
-        kinds = {t["e"]["v"] for c in cases for t in c["tasks"] if t["e"]["k"] == "panic"}
+            futs = [ex.submit(pipeline, binp, cfg, take, w, nch, tier, sc, random.Random(lib.seed()))
+                    for cfg, take, w, nch in models]
+            res = [f.result() for f in futs]
+        nrun = sum(len(p["rows"]) for p in res)
+        aborted = any(len(p["rows"]) < len(p["cases"]) for p in res)      # the driver stops after 40 process deaths
+        if nrun < floor and not aborted:
+            raise lib.Inconclusive("too few configurations: %d (floor %d)" % (nrun, floor))
+        kinds = {t["e"]["v"] for p in res for c in p["cases"] for t in c["tasks"] if t["e"]["k"] == "panic"}
         if len(kinds) < 9:
             raise lib.Inconclusive("panic value kinds exercised: %s" % sorted(kinds))
+        nmm = sum(len(p["mm"]) for p in res)
+        selftest = binding_selftest([r for p in res for r in p["rows"]], sc) if tier == "thorough" and not nmm else None
 
-        bad_lines = sorted({m["l"] for m in mm})[:CONFIRM_CAP]
-        if bad_lines:
-            again = confirm(binp, [cases[l - 1] for l in bad_lines], sc)
+        budget = CONFIRM_CAP
+        for p in res:
+            mm, rows, cases = p["mm"], p["rows"], p["cases"]
+            bad_lines = sorted({m["l"] for m in mm})[:budget]
+            budget -= len(bad_lines)
+            if not bad_lines:
+                continue
+            again = confirm(binp, [dict(cases[l - 1], gate=gate_for(rows[l - 1])) for l in bad_lines], sc)
             for i, l in enumerate(bad_lines):
                 ms = [m for m in mm if m["l"] == l]
                 if i not in again:
@@ -150,24 +210,39 @@ def check(tier):
                     m["recorded_again"] = again[i]
                     v.add("%s/%s" % (m["what"], m["kind"]), m)
         rc = v.finish()
+        if aborted and rc == 0:
+            raise lib.Inconclusive("the driver stopped after many process deaths but no violation was confirmed")
 
-        nontrivial = {rows[s["l"] - 1]["key"] for s in st if s["panics"] > 0 or rows[s["l"] - 1]["out"]["k"] != "nil"}
+        nontrivial, choice, by_outcome = set(), set(), {}
+        for p in res:
+            for s in p["st"]:
+                row = p["rows"][s["l"] - 1]
+                if s["panics"] > 0 or row["out"]["k"] != "nil":
+                    nontrivial.add(row["key"])
+                if s["choices"] > 1:
+                    choice.add(row["key"])
+            for k, n in p["rep"]["extra"]["by_outcome"].items():
+                by_outcome[k] = by_outcome.get(k, 0) + n
+        samples = [x for p in res for x in p["rep"]["samples"][:2]] or res[0]["rows"][:2]
         lib.write_evidence(PID, tier, "model_checking", {
-            "states": sum(r.distinct for r, _ in res),
-            "transitions": sum(r.generated for r, _ in res),
-            "traces_validated_against_impl": len(st),
-            "samples": rep["samples"][:3] or rows[:2],
-            "exhaustive": all(k is None for _, k in models),
-            "evaluations": len(rows),
+            "states": sum(p["r"].distinct for p in res),
+            "transitions": sum(p["r"].generated for p in res),
+            "traces_validated_against_impl": sum(len(p["st"]) for p in res),
+            "samples": samples[:3],
+            "exhaustive": all(take is None for _, take, _, _ in models),
+            "evaluations": nrun,
             "distinct_nontrivial": len(nontrivial),
-            "rule": "every configuration TLC enumerates for the listed constants is model-checked over all completion schedules; each distinct configuration (key) is run once on the real errguard in a child process (ErrGuard_four.cfg: all configurations of <= 2 tasks plus a seeded sample of 1500 larger ones) with seeded random yields before each task ends; non-trivial = the configuration contains a panicking task or Wait returned non-nil; distinct = distinct configuration key",
-            "models": per_model,
+            "rule": "every configuration TLC enumerates for the listed constants files is model-checked over all completion schedules and run once on the real errguard in a child process (seeded random yields/delays before each task ends); non-trivial = the configuration contains a panicking task or Wait returned non-nil; distinct = distinct configuration key (configurations shared by two constants files are counted once)",
+            "models": {p["cfg"]: {"configurations": len(p["configs"]), "states": p["r"].distinct, "generated": p["r"].generated,
+                                  "run_on_real_code": len(p["rows"]), "tlc_wall_s": round(p["r"].wall, 1),
+                                  "process_deaths": p["rep"]["extra"]["process_deaths"],
+                                  "child_processes": p["rep"]["extra"]["child_processes"]} for p in res},
             "panic_value_kinds": sorted(kinds),
-            "by_outcome": rep["extra"]["by_outcome"],
-            "process_deaths": rep["extra"]["process_deaths"],
-            "child_processes": rep["extra"]["child_processes"],
-            "configurations_with_a_choice": sum(1 for s in st if s["choices"] > 1),
-            "mismatches": len(mm),
+            "by_outcome": by_outcome,
+            "process_deaths": sum(p["rep"]["extra"]["process_deaths"] for p in res),
+            "configurations_with_a_choice": len(choice),
+            "mismatches": nmm,
+            "binding_selftest": selftest,
         }, time.time() - t0, violations=len(v.violations),
             assumptions=["main module go >= 1.21, so panic(nil) reaches recover() as *runtime.PanicNilError",
                          "tasks spawn their children when they start; a parent Waits for its nested group before it ends",
@@ -181,7 +256,7 @@ def replay(path):
     binp = lib.build("c48")
     rec = det["recorded"]
     with lib.Scratch() as sc:
-        again = confirm(binp, [{"key": rec["key"], "tasks": rec["tasks"]}], sc)
+        again = confirm(binp, [{"key": rec["key"], "tasks": rec["tasks"], "gate": gate_for(rec)}], sc)
         print(json.dumps(again.get(0, "not reproduced"), indent=1))
     print("VIOLATION reproduced" if again else "not reproduced on this tree")
     return 1 if again else 0
